@@ -160,7 +160,7 @@ pub fn run(ctx: &Arc<Ctx>) {
         Err(e) => ctx.machinery_error(format!("missing corpus/sm3.json: {}", e)),
     }
     let lmax = ctx.tier.pick(1100usize, 12000);
-    ctx.set_rule("every length 0..=Lmax x 5 content classes; every single-bit-set message of 55/56/63/64/192 bytes; k*64+{-9,-8,-1,0,1} for k=1..=40; 2^k+{-1,0,1} bytes for k=13..=22 (thorough 26) and lengths whose bit length has distinct non-zero bytes, up to one message of 0x20406081 bytes (bit length 0x0102030408) and, thorough, one of 0x120406081 bytes (more than 2^32 bytes, bit length 0x0902030408); messages passed as slices at byte offsets 1..7 of an aligned buffer; every value of the last byte at 8 lengths; every sequence of <= 4 blocks over {zero, A, B, 'abcd' x 16} x 4 tails; all call sequences of length <=3 over 6 messages (purity). A case is distinct by (kind, length, content/bit). Oracle: independent streaming SM3.");
+    ctx.set_rule("every length 0..=Lmax x 5 content classes; every single-bit-set message of 55/56/63/64/192 bytes; k*64+{-9,-8,-1,0,1} for k=1..=40; 2^k+{-1,0,1} bytes for k=13..=22 (thorough 26) and lengths whose bit length has distinct non-zero bytes, up to one message of 0x20406081 bytes (bit length 0x0102030408) and, thorough, one of 0x120406081 bytes (more than 2^32 bytes, bit length 0x0902030408); messages passed as slices at byte offsets 1..7 of an aligned buffer; every value of the last byte at 8 lengths; first blocks crafted so that two working registers are equal after round 0 (7 patterns x 3 lengths); every sequence of <= 4 blocks over {zero, A, B, 'abcd' x 16} x 4 tails; all call sequences of length <=3 over 6 messages (purity). A case is distinct by (kind, length, content/bit). Oracle: independent streaming SM3.");
     ctx.note_bound(format!("Lmax={}", lmax));
     let mut cases: Vec<Case> = Vec::new();
     for len in 0..=lmax {
@@ -208,6 +208,58 @@ pub fn run(ctx: &Arc<Ctx>) {
             }
         }
         ctx.cov("block_sequences", json!(seqs.len()));
+    }
+    // first blocks crafted so that two working registers are equal after round 0 (A = B, A = C, A = D, E = F, E = G, E = H,
+    // and A = B together with E = F): a boolean-function shortcut for equal operands placed in the wrong round range fires there.
+    // W'_0 = W_0 ^ W_4 and W_0 are solved from the IV; the digest is checked like any other message's
+    {
+        const IV: [u32; 8] = [0x7380166f, 0x4914b2b9, 0x172442d7, 0xda8a0600, 0xa96f30bc, 0x163138aa, 0xe38dee4d, 0xb0fb0e4e];
+        let p0 = |x: u32| x ^ x.rotate_left(9) ^ x.rotate_left(17);
+        let p0_inv = |y: u32| -> u32 {
+            // P0 is a linear bijection of finite order: iterate until y comes back, the value before it is the pre-image
+            let mut cur = y;
+            loop {
+                let nxt = p0(cur);
+                if nxt == y {
+                    return cur;
+                }
+                cur = nxt;
+            }
+        };
+        let (a, b, c, d, e, f, g, h) = (IV[0], IV[1], IV[2], IV[3], IV[4], IV[5], IV[6], IV[7]);
+        let ss1 = a.rotate_left(12).wrapping_add(e).wrapping_add(0x79cc4519).rotate_left(7);
+        let ss2 = ss1 ^ a.rotate_left(12);
+        let ff0 = a ^ b ^ c;
+        let gg0 = e ^ f ^ g;
+        let a_targets = [("A=B", a), ("A=C", b.rotate_left(9)), ("A=D", c)];
+        let e_targets = [("E=F", e), ("E=G", f.rotate_left(19)), ("E=H", g)];
+        let mut crafted: Vec<(String, u32, u32)> = Vec::new(); // (name, W0, W4)
+        for (n, t) in a_targets {
+            let w0 = 0x61626364u32;
+            let wp0 = t.wrapping_sub(ff0.wrapping_add(d).wrapping_add(ss2));
+            crafted.push((n.to_string(), w0, w0 ^ wp0));
+        }
+        for (n, t) in e_targets {
+            let w0 = p0_inv(t).wrapping_sub(gg0.wrapping_add(h).wrapping_add(ss1));
+            assert_eq!(p0(w0.wrapping_add(gg0).wrapping_add(h).wrapping_add(ss1)), t, "P0 pre-image");
+            crafted.push((n.to_string(), w0, 0x31323334));
+        }
+        {
+            let w0 = p0_inv(e).wrapping_sub(gg0.wrapping_add(h).wrapping_add(ss1));
+            let wp0 = a.wrapping_sub(ff0.wrapping_add(d).wrapping_add(ss2));
+            crafted.push(("A=B,E=F".to_string(), w0, w0 ^ wp0));
+        }
+        for (_, w0, w4) in &crafted {
+            for extra in [0usize, 44, 108] {
+                let mut m = Vec::new();
+                m.extend_from_slice(&w0.to_be_bytes());
+                m.extend_from_slice(&[0u8; 12]);
+                m.extend_from_slice(&w4.to_be_bytes());
+                m.extend(std::iter::repeat(0x5au8).take(extra));
+                cases.push(Case::Class { class: format!("hex:{}", hex::encode(&m)), len: m.len() });
+            }
+        }
+        ctx.cov("crafted_equal_registers_after_round_0", json!(crafted.iter().map(|c| c.0.clone()).collect::<Vec<_>>()));
     }
     for off in 1..8usize {
         for len in (0..=200usize).chain([255, 256, 257, 511, 512, 1000]) {
